@@ -1,7 +1,7 @@
 #!/bin/bash
 # usage: tools/seedsweep.sh <seed> [tier] [workers]   runs every check with VERIF_SEED=<seed> on the current tree
 seed=$1; tier=${2:-quick}; w=${3:-8}
-cd /verif
+cd "$(dirname "$0")/.." || exit 2
 for i in $(seq -w 1 20); do
   c=C$i
   echo "##### $c"
